@@ -759,6 +759,7 @@ struct RunOutput {
 };
 
 std::set<std::string> gKnownEnabled;
+std::string gProbeKnown;  // --probe-known KEY: run only the cases of this known-finding cell
 bool gWantDescribe = false;
 
 Strategy DrawStrategy(Rng& r) {
@@ -824,6 +825,14 @@ bool ExecuteCase(const RunInput& in, RunOutput& out) {
   gCurCase = c;
   const char* key = c->Known();
   out.known_key = key;
+  if (!gProbeKnown.empty() && gMode == 1 && (key == nullptr || gProbeKnown != key)) {
+    out.skipped_known = true;
+    out.known_key = "";
+    gCurCase = nullptr;
+    delete c;
+    gRec->state = 0;
+    return false;
+  }
   if (key != nullptr && gKnownEnabled.count(key) != 0 && gMode == 1) {
     out.skipped_known = true;
     gCurCase = nullptr;
@@ -1508,6 +1517,7 @@ int Explore(const Args& a) {
   }
   gOnly = only;
   gHashFile = a.Get("hashes");
+  gProbeKnown = a.Get("probe-known", "");
   if (const char* known = a.Get("known")) {
     std::string s = known;
     std::size_t p = 0;
@@ -1563,6 +1573,10 @@ int Explore(const Args& a) {
     RunOutput out;
     gWantDescribe = false;
     const bool ran = ExecuteCase(in, out);
+    if (!ran && out.known_key != nullptr && out.known_key[0] == 0) {
+      CountersEndRun(false);
+      continue;  // --probe-known: not a case of the probed cell
+    }
     if (!ran) {
       ++gStats.skipped_known;
       auto& v = gKnownCases[out.known_key];
